@@ -342,10 +342,10 @@ fn exh_len(tier: Tier) -> u32 {
 const EXH_BLOCK: u64 = 8000;
 const RAND_BLOCK: u64 = 5000;
 fn text_cases(tier: Tier) -> u64 {
-    tier.pick(60_000, 1_500_000)
+    tier.pick(240_000, 1_500_000)
 }
 fn garbled_cases(tier: Tier) -> u64 {
-    tier.pick(60_000, 1_500_000)
+    tier.pick(240_000, 1_500_000)
 }
 
 impl Property for C18P {
